@@ -263,6 +263,7 @@ func runC03(r *mon.Run) {
 	r.FloorFam("collude-disclose0", 10)
 	r.FloorFam("collude-split0", 10)
 	r.FloorFam("collude-crt", 10)
+	r.FloorFam("collude-mirrored", 10)
 	r.FloorFam("equalised-reused-objects", 50)
 }
 
@@ -291,6 +292,23 @@ func c03Collude(r *mon.Run, jr *rand.Rand, shape string, keys []*world.Key, cred
 				r.PanicSeen(mon.PanicSite(stack))
 			}
 			c03Oracle(r, family, d, ok, sec, lab, list, pks)
+		}
+	}
+	// mirrored secret: an issuance commitment to -s_a with randomiser -rs answers with exactly the negated response of member a
+	// (in memory only: the wire encoding has no negative integers). Linking must compare the values, not their magnitudes.
+	{
+		negS := new(big.Int).Neg(secrets[a])
+		pu := refimpl.NewUProver(keys[b].PK, map[int]*big.Int{0: negS}, new(big.Int).Neg(rs))
+		list, _ := refimpl.ProveList([]refimpl.Prover{mkHonest(a), pu}, ctx, nonce, false)
+		for _, lab := range [][]int{nil, {0, 0}} {
+			d := fmt.Sprintf("%s a=%d commitment to the negated secret with the negated randomiser labels=%v", shape, a, lab)
+			r.Distinct("collude-mirrored", d)
+			ok, pv, stack := verifyList(cloneList(list), pks, ctx, nonce, false, labelsOf(lab))
+			r.Eval("collude-mirrored", outcome(ok, pv))
+			if pv != nil {
+				r.PanicSeen(mon.PanicSite(stack))
+			}
+			c03Oracle(r, "collude-mirrored", d, ok, []*big.Int{secrets[a], negS}, lab, list, pks)
 		}
 	}
 	if creds[b] != nil {
